@@ -91,10 +91,42 @@ def full_run(d: str, flags: list[str], targets: list[str], capture: bool = True)
     return r
 
 
+def _deps_complete(fgm: Any, options: Any, d: str, targets: list[str]) -> dict[str, Any]:
+    """Invariant at the end of a history: the long-lived daemon's trigger -> targets map contains every edge that a
+    FRESH daemon derives for the same files (a fresh build computes the map of every module from scratch with the
+    repository's own dependency visitor).  A missing edge means a later edit of that definition will not re-check
+    the target.  Only edges whose target lies in a user module are compared."""
+    from mypy.dmypy_server import Server
+    res: dict[str, Any] = {"edges": 0, "missing": []}
+    try:
+        import copy
+        with redirect_stdout(io.StringIO()), redirect_stderr(io.StringIO()):
+            fresh = Server(copy.deepcopy(options), os.path.join(d, ".dmypy-fresh.json"))
+            r = fresh.cmd_check(list(targets), False, False, 80)
+        f2 = fresh.fine_grained_manager
+        if f2 is None or "error" in r:
+            res["error"] = "fresh daemon did not build"
+            return res
+        user = {mid for mid, st in f2.graph.items() if "typeshed" not in (st.path or "") and "site-packages" not in (st.path or "")}
+        res["modules"] = len(user)
+        for trig, tg in f2.deps.items():
+            have = fgm.deps.get(trig, ())
+            for t in tg:
+                tm = t.lstrip("<").split("[")[0].rstrip(">")
+                if not any(tm == u or tm.startswith(u + ".") for u in user):
+                    continue
+                res["edges"] += 1
+                if t not in have and len(res["missing"]) < 8:
+                    res["missing"].append([trig, t])
+    except BaseException as e:
+        res["error"] = f"{type(e).__name__}: {e}"[:200]
+    return res
+
+
 def run_history(versions: list[dict[str, str]], flags: list[str], targets: list[str],
                 modes: list[str] | None = None, oracle_last_only: bool = False,
                 oracle_steps: list[int] | None = None, consistency: bool = False,
-                mtime_back: list[bool] | None = None) -> dict[str, Any]:
+                mtime_back: list[bool] | None = None, deps_monitor: bool = False) -> dict[str, Any]:
     from mypy import dmypy_server
     from mypy.dmypy_server import Server
 
@@ -178,6 +210,9 @@ def run_history(versions: list[dict[str, str]], flags: list[str], targets: list[
                     c2 = diag.compare(st["out"], st["oracle"]["out"], st["status"], st["oracle"]["status"], drop_msgs=once)
                     st["equal_mod_once"] = c2["equal"]
                     st["status_equal"] = cmp["status_equal"]
+                if (deps_monitor and fgm is not None and "crash" not in st and st.get("status") != 2 and i == len(versions) - 1
+                        and st.get("equal")):
+                    st["deps_monitor"] = _deps_complete(fgm, options, d, targets)
                 if consistency and fgm is not None:
                     try:
                         from mypy.server.mergecheck import check_consistency
